@@ -31,7 +31,7 @@ def eye_l(n, sub=None):
 
 def cases(thorough):
     cs = []
-    vs3 = [(1, 1, 0), (1, 1, 1), (1, -1, 2), (1, 0, 0)]
+    vs3 = [(1, 1, 0), (1, 1, 1), (1, -1, 2), (1, 0, 0), (1, 1, 2)]
     ds3 = [(1, 2, 4), (3, -1, 2), (5, 0, -2)] + ([(-3, -1, -6), (7, 2, 1), (0, 4, -4)] if thorough else [])
     ls3 = [eye_l(3), eye_l(3, {(1, 0): 1, (2, 1): -1}), eye_l(3, {(1, 0): 2, (2, 0): 1, (2, 1): 1})] + ([eye_l(3, {(2, 0): -1}), eye_l(3, {(1, 0): -1, (2, 0): 1, (2, 1): 2})] if thorough else [])
     for v, d, l in itertools.product(vs3, ds3, ls3):
@@ -99,7 +99,14 @@ def check_case(c):
                 return "count", "%s returned %s eigenvalues / vectors of shape %s, expected %s / %s" % (label, W.shape, Q.shape, lam.shape, V.shape)
             if not np.allclose(W, lam, rtol=1e-8, atol=1e-9):
                 return "values", "%s eigenvalues %s, specification %s" % (label, W.tolist(), lam.tolist())
-            if not np.allclose(Q, V, rtol=1e-7, atol=1e-8):
+            # a vector whose entries sum to exactly zero has a free sign in the specification: align it before comparing
+            Vc = V.copy()
+            for a, free in enumerate(c.get("signfree", [])):
+                if free and np.real(np.vdot(Vc[:, a], Q[:, a])) < 0:
+                    Vc[:, a] = -Vc[:, a]
+            if np.any(Q.real.mean(axis=0) < -1e-12):
+                return "sign", "%s: an eigenvector has a negative mean entry" % label
+            if not np.allclose(Q, Vc, rtol=1e-7, atol=1e-8):
                 return "vectors", "%s eigenvectors differ from the exact B-normalised, sign-fixed ones (max err %.3g)" % (label, np.abs(Q - V).max())
     return None
 
